@@ -426,7 +426,15 @@ class SArr:
             data = []
             for s in subs:
                 data.extend(s.data)
-            return SArr((len(subs),) + sh, data, dtype="object" if any(s.dtype == "object" for s in subs) else "float")
+            if any(isinstance(x, str) for x in data) and any(isinstance(x, Rat) for x in data) and all(isinstance(x, str) or (isinstance(x, Rat) and x.is_const()) for x in data):
+                # NumPy's common type of numbers and strings is a string type: the numbers are written out
+                def text(x):
+                    if isinstance(x, str):
+                        return x
+                    c = x.const()
+                    return str(int(c)) if c.denominator == 1 and x.n.is_const() and not getattr(x, "_float", False) else repr(float(c))
+                data = [text(x) for x in data]
+            return SArr((len(subs),) + sh, data, dtype="object" if any(s.dtype == "object" for s in subs) or any(isinstance(x, str) for x in data) else "float")
         try:
             return SArr((), [rat(x)])
         except SymAbort:
